@@ -259,7 +259,8 @@ def run_transition(chk, prog, T, setup2=None, **xopts):
         return None
     if not chk.no_replay:
         try:
-            T.validate_witnesses(chk, ob, prog, getattr(prog, '_schema', None) or reldb.Schema(prog))
+            if getattr(ob, 'witnesses', None):
+                T.validate_witnesses(chk, ob, prog, getattr(prog, '_schema', None) or reldb.Schema(prog))
         except Exception as e:
             ob.inconclusive.append('witness validation machinery failed: %s' % traceback.format_exc(limit=3))
             print('INCONCLUSIVE property=%s obligation=%s witness validation failed: %s' % (chk.prop, T.name, e))
